@@ -9,5 +9,5 @@ CONSTANTS
   Corpus = "gen"
   Emit = FALSE
 SPECIFICATION Spec
-INVARIANTS TRange TDSmall TChildren TMonotone TPerm TFragment TDouble TGate TGateMono TBindState
+INVARIANTS TRange TDSmall TChildren TMonotone TPerm TFragment TDouble TGate TGateMono TBindState TOccIndep
 CHECK_DEADLOCK FALSE
